@@ -14,9 +14,13 @@ RULE = ('input molecules = sequences of 1-6 residues drawn from 3 residue kinds 
         'node keys consecutive, sparse or shuffled; mapping sets with one-to-one, many-to-one, shared atoms (two particles), '
         'zero-weight atoms, particles built from no atom, particles without name (removed), a two-residue mapping, '
         'partially mapped residues, a second mapping for the same residue (overlap); real Mapping.map (set of placements) '
-        'and real do_mapping with attribute_keep=(chain,), attribute_stash=(resid,), warnings captured. non-trivial = at '
+        'and real do_mapping with attribute_keep=(chain,), attribute_stash=(resid,), warnings captured; modification cases: residues '
+        'with an extra flagged atom, every atom of the residue labelled, modification mappings that add a particle / rename the '
+        'anchor particle / map onto it / are missing / name a particle that does not exist, extra atom numbered inside its '
+        'residue; shipped data: peptides of 2-5 residues built from the shipped charmm blocks, mapped with the shipped '
+        'charmm->martini3001 / martini22 mappings (placements enumerated by the proved search of C06). non-trivial = at '
         'least two placements and a bond between particles of different placements; distinct by input')
-ASSUMPTIONS = ['block mappings only: modification mappings (modification_matches, apply_mod_mapping) are not modelled or generated',
+ASSUMPTIONS = ['a modification placed on atoms that two overlapping block placements use picks one of several equally named particles by set iteration order: such cases are generated but not compared',
                'weights are multiples of 1/4 (shipped as integers); references are empty',
                'when two placements share their lowest atom key the processing order depends on the order in which networkx finds them; '
                'the statement-level check then only judges the warnings (the correspondence still runs with the order found)']
@@ -597,7 +601,21 @@ def beads_lit(beads):
         zlit(b['key']), zlit(b['name']), zlit(b['resid']), zlit(b['cg']), pairs_lit(b['w']), optlit(b['chain'], zlit), optlit(b['old'], zlit)))
 
 
+def _blocks_overlap(out):
+    seen = set()
+    for _, m2b in out['found']:
+        ks = {k for k, _ in m2b}
+        if ks & seen:
+            return True
+        seen |= ks
+    return False
+
+
 def emit_mods(inp, out):
+    if out['mfound'] and _blocks_overlap(out):
+        # a modification on atoms used by two block placements picks one of several equally named particles by set iteration
+        # order: not compared
+        return None
     L = '{| l_mol := %s; l_ptm := %s; l_mods := %s |}' % (mol_lit(inp['mol']), listlit(inp['ptm'], zlit),
                                                          listlit(inp['labels'], lambda kv: '(%s, %s)' % (zlit(kv[0]), listlit(kv[1], zlit))))
     found = listlit(out['found'], lambda f: '{| p_m2b := %s; p_block := %s |}' % (m2b_lit(f[1]), block_lit(inp['maps'][f[0]]['to'])))
@@ -654,6 +672,7 @@ def describe(inp, out):
                 'real_n_beads': min(len(out['beads']), 12)}
     if inp['kind'] == 'mods':
         return {'kind': 'mods', 'n_mod_placements': min(len(out['mfound']), 4), 'mods_error': out['result'] is None,
+                'mods_skipped_overlap': bool(out['mfound']) and _blocks_overlap(out),
                 'mods_no_cover': min(out['no_cover'], 2), 'n_modmaps': len(inp['modmaps'])}
     if inp['kind'] == 'map':
         return {'kind': 'map', 'n_matches': min(len(out['matches']), 4)}
